@@ -238,6 +238,36 @@ def truncQ (q : Rat) : Int := if 0 ≤ q then q.floor else -((-q).floor)
 /-- `vd` for a field of width `w` -/
 def frontQ (w : Nat) (q : Rat) : Int := if w = 8 then truncQ q else roundHalfAway q
 
+/-! ## what the property demands of a stored field (the judge of the front-end correspondence)
+
+The property fixes a *tolerance*, not a rounding policy: reading back must give the written value to within
+half a resolution step — one step for the 8-byte field — and an unrepresentable value must become the
+out-of-range code. Which of the admissible codes is chosen (truncation or rounding in the 8-byte field, the
+direction of exact ties) is left open, so the correspondence does not compare the library's choice with
+`frontQ` but judges it with `acceptsQ`; `C06_front_accepted` proves that the model's own choice passes. -/
+
+def absQ (q : Rat) : Rat := if 0 ≤ q then q else -q
+
+/-- the stated tolerance in resolution steps -/
+def tolQ (w : Nat) : Rat := if w = 8 then 1 else 1 / 2
+
+/-- Is the loaded field `c` (`none` = "not available") an admissible result of writing the exact quotient
+`q = v/precision`? Either `c` is within the tolerance (+ `slack`, the allowance for the IEEE quotient) of `q`,
+or `c` is the out-of-range code and `q` is within the tolerance of an integer outside the code range. -/
+def acceptsQ (w : Nat) (s : Bool) (q slack : Rat) (c : Option Int) : Bool :=
+  match c with
+  | none => false
+  | some c =>
+    let t := tolQ w + slack
+    decide (absQ ((c : Rat) - q) ≤ t) ||
+      (c == orCode w s &&
+        (decide ((orCode w s : Rat) - t ≤ q) || decide (q ≤ ((loBound w s - 1 : Int) : Rat) + t)))
+
+/-- allowance for the double quotient: 2^-40 relative, at most one unit -/
+def slackQ (q : Rat) : Rat :=
+  let r := absQ q / 1099511627776
+  if r ≤ 1 then r else 1
+
 /-! ## the pinned tree (before the `fix:` commits) — for the witness theorems only -/
 
 /-- pinned `GetBuf3ByteDouble`: no sign extension -/
